@@ -104,6 +104,9 @@ type c06Frag struct {
 func c06VerbatimBody(r *Rng) string {
 	pool := []string{"{{", "}}", "{%", "%}", "{#", "#}", " ", "\n", "x", "{{ v }}", "{% if %}", "{% endif %}", "{# c #}", "{% verbatim %}", "{% endverbatim", "endverbatim %}", "{%- -%}", "\x01", "\xff", "é", "{", "%", "{% comment %}", "\"", "'"}
 	n := r.Intn(7)
+	if r.Chance(15) {
+		return r.Pick([]string{"%}", "{%", "{{", "}}", "{#", "#}", "-%}", "{%-"}) // a body that reads like a delimiter
+	}
 	var sb strings.Builder
 	for i := 0; i < n; i++ {
 		sb.WriteString(pool[r.Intn(len(pool))])
@@ -148,6 +151,10 @@ func c06GenFrag(r *Rng) c06Frag {
 	switch r.Intn(9) {
 	case 0, 1, 2:
 		t := c06RandText(r, 12)
+		if r.Chance(12) {
+			// text that reads like a closing delimiter, or whitespace the block options care about
+			t = r.Pick([]string{"%}", "}}", "#}", "-%}", "\n", " \t", "\nx", "x \t", "\n\n", "  "})
+		}
 		for strings.HasSuffix(t, "{") {
 			t = t[:len(t)-1]
 		}
@@ -195,6 +202,22 @@ func c06Run(c *C) {
 		if cerr != nil || xerr != nil || out != s {
 			c.Fail("identity", D{"source": q(s), "output": q(out), "compile_err": errStr(cerr), "exec_err": errStr(xerr)})
 			return
+		}
+		if len(s) > 0 {
+			// FromBytes: the caller's slice is the caller's - writing into it after compiling changes nothing
+			bset, _ := newSet(emptySetFiles)
+			buf := []byte(s)
+			if btpl, berr := bset.FromBytes(buf); berr == nil {
+				for i := range buf {
+					buf[i] = 'X'
+				}
+				bout, bxerr := c01Exec(btpl, ctx, r.Intn(4))
+				c.Eval(1)
+				if bxerr != nil || bout != s {
+					c.Fail("identity", D{"source": q(s), "output": q(bout), "exec_err": errStr(bxerr), "why": "compiled with FromBytes; the caller's byte slice was overwritten with X afterwards"})
+					return
+				}
+			}
 		}
 		if len(s) > 0 {
 			// the same through ExecuteBytes; the returned bytes are the caller's and must stay intact while other texts are rendered
@@ -277,6 +300,27 @@ func c06Run(c *C) {
 		if atomic.LoadInt64(&c06Boom) != before {
 			c.Fail("comment-evaluated", D{"source": q(src.String()), "calls": atomic.LoadInt64(&c06Boom) - before})
 			return
+		}
+		// TrimBlocks / LStripBlocks concern text next to BLOCK TAGS only: a sequence without any block tag (text, verbatim
+		// blocks, {# #} comments, variables) renders the same with the options switched on
+		noBlockTag := true
+		for _, f := range frags {
+			if f.kind == "commenttag" || f.kind == "templatetag" || f.kind == "tagblock" {
+				noBlockTag = false
+			}
+		}
+		if noBlockTag {
+			oset, _ := newSet(emptySetFiles)
+			oset.Options.TrimBlocks, oset.Options.LStripBlocks = true, true
+			if otpl, oerr := oset.FromString(src.String()); oerr == nil {
+				oout, oxerr := otpl.Execute(ctx)
+				c.Eval(1)
+				if oxerr != nil || oout != whole {
+					c.Fail("concatenation", D{"source": q(src.String()), "output_with_TrimBlocks_and_LStripBlocks": q(oout), "output_with_default_options": q(whole), "fragments": kinds, "why": "no block tag in the source: the options have nothing to act on", "error": errStr(oxerr)})
+					return
+				}
+				c.Cover("options_without_block_tags")
+			}
 		}
 		c.Nontrivial("seq:" + src.String())
 		if c.WantSample() && len(src.String()) < 160 {
